@@ -74,9 +74,12 @@ def run(rep, tier):
             raise AnalysisBroken("C10 %s: unmodelled instruction %s" % (inst, s.unknown[0]["op"]))
         sinks = s.opaque_calls("_ZN5verif4sink")
         others = [c for c in s.calls if c not in sinks]
-        if len(sinks) != 1 or sinks[0].cond != ir.TRUE or others:
-            rep.fail("C10.one-query", inst, FILE, "expected exactly one unconditional backend query, found %d (other calls: %s)" % (
+        if not sinks or others:
+            rep.fail("C10.one-query", inst, FILE, "expected exactly one backend query, found %d (other calls: %s)" % (
                 len(sinks), [c.dname for c in others][:3]))
+            continue
+        if len(sinks) != 1 or sinks[0].cond != ir.TRUE:
+            check_sites(rep, h, s, sinks, inst, orders)
             continue
         call = sinks[0]
         if call.args[0] != h.atom('tag'):
@@ -137,6 +140,77 @@ def run(rep, tier):
             else:
                 rep.ok("C10.out", qi)
     return hs
+
+
+def check_sites(rep, h, s, sinks, inst, orders):
+    """Several query sites, or a conditional one (a fast path for coordinates already inside the box): decided on every
+    product of per-component orderings - exactly one site executes and its arguments are the clamp."""
+    import itertools
+    kind = STYPES[h.meta["S"]][1]
+    N = h.meta["N"]
+    atoms3 = [(h.atom(('c', k)), h.atom(('lo', k)), h.atom(('hi', k))) for k in range(N)]
+    for call in sinks:
+        if call.args[0] != h.atom('tag') or len(call.args) != N + 1:
+            rep.fail("C10.one-query", inst, ir.where(call.inst), "a query site is not on the backend view built from the owning backend, or has %d components" % (len(call.args) - 1))
+            return
+        for k in range(N):
+            t = call.args[1 + k]
+            at = ir.atoms(t)
+            if not at <= set(atoms3[k]) or atoms3[k][0] not in at:
+                rep.fail("C10.dep", "%s[%d]" % (inst, k), ir.where(call.inst), "argument depends on %s, expected {c%d, lo%d, hi%d}" % (sorted(ir.show(a) for a in at), k, k, k))
+                return
+            arith = []
+            ir.walk(t, lambda x: arith.append(x) if x[0] in ('cast', 'op') else None)
+            if arith:
+                rep.fail("C10.dep", "%s[%d]" % (inst, k), ir.where(call.inst), "the coordinate is converted or computed with on its way to the backend (clamping may only compare and select): %s" % ir.show(arith[0])[:120])
+                return
+    outs = s.outputs(h.out_index)
+    ok_orders = [r for r in orders if r[1] <= r[2]]
+    bad_pred = set()
+    n = 0
+    for combo in itertools.product(ok_orders, repeat=N):
+        rank = {}
+        for (c, lo, hi), r in zip(atoms3, combo):
+            rank.update({c: r[0], lo: r[1], hi: r[2]})
+        ev = ir.OrdEval(rank, kind)
+        truth = [ev.cond(c.cond) for c in sinks]
+        if any(t is None for t in truth):
+            raise AnalysisBroken("C10 %s: the condition of a query site is not a comparison tree over the coordinate and the box" % inst)
+        act = [c for c, t in zip(sinks, truth) if t]
+        if len(act) != 1:
+            rep.fail("C10.one-query", inst, FILE, "for per-component ranks (c,lo,hi)=%s %d backend queries execute, expected exactly one" % (list(combo), len(act)), {"ordering": combo})
+            return
+        for k in range(N):
+            v = ev.value(act[0].args[1 + k])
+            if v is None or v not in rank:
+                raise AnalysisBroken("C10 %s[%d]: argument is not a comparison/select tree over its atoms" % (inst, k))
+            c, lo, hi = atoms3[k]
+            if rank[v] != expected_clamp(rank, c, lo, hi):
+                rep.fail("C10.ord", "%s[%d]" % (inst, k), ir.where(act[0].inst), "for per-component ranks (c,lo,hi)=%s the backend is queried at %s in component %d instead of the clamp" % (
+                    list(combo), {c: "c", lo: "lo", hi: "hi"}[v], k), {"ordering": combo})
+                return
+        for q in range(2):
+            t = outs.get(4 * q)
+            while t is not None and t[0] == 'sel':
+                cnd = ev.cond(t[1])
+                if cnd is None:
+                    raise AnalysisBroken("C10 %s: output select is not order-evaluable" % inst)
+                t = t[2] if cnd else t[3]
+            if t != ('ld', ('ret', act[0].n), 4 * q, 4, 'float', 0):
+                rep.fail("C10.out", "%s out[%d]" % (inst, q), FILE, "for per-component ranks %s the result is %s, expected component %d of the value just queried" % (list(combo), ir.show(t) if t else "never written", q))
+                return
+        bad_pred |= set(ev.bad_pred)
+        n += 1
+        rep.ok("C10.ord", "%s ranks=%s" % (inst, combo))
+    rep.ok("C10.one-query", inst)
+    for k in range(N):
+        rep.ok("C10.dep", "%s[%d]" % (inst, k))
+        if bad_pred:
+            rep.fail("C10.pred", "%s[%d]" % (inst, k), FILE, "comparison predicate(s) %s do not match coordinate kind %s" % (sorted(bad_pred), kind))
+        else:
+            rep.ok("C10.pred", "%s[%d]" % (inst, k))
+    for q in range(2):
+        rep.ok("C10.out", "%s out[%d]" % (inst, q))
 
 
 def check(tier):
